@@ -96,7 +96,7 @@ def setup(ctx):
     return {'ffis': [ffi1, ffi2], 'libs': [lib1, lib2]}
 
 
-OPS = ['create'] * 6 + ['drop'] * 6 + ['collect'] * 2 + ['call'] * 3 + ['selfdrop']
+OPS = ['create'] * 6 + ['drop'] * 6 + ['collect'] * 2 + ['call'] * 3 + ['selfdrop'] + ['pagefill']
 
 
 def strategy(ctx):
@@ -314,6 +314,30 @@ class History(object):
         r = self.live[(i * 16 + k) * 7919 % len(self.live)]
         self.call(r, how, k)
         return 'call-' + ('cdata', 'from-C', 'address')[how % 3]
+
+    def op_pagefill(self, sig, a, b):
+        """create callbacks one at a time until the closure allocator has handed out the last block of
+        its current mapping (blocks are handed out from the end of a mapping towards its page-aligned
+        start), then -- with no creation in between -- drop one callback and call the newest ones"""
+        for _ in range(700):
+            if len(self.live) + 1 > MAX_LIVE:
+                return None
+            self.op_create(sig, 0, 0)
+            if self.live[-1].addr % 4096 == 0:
+                break
+        else:
+            return 'pagefill-mapping-not-exhausted'
+        if len(self.live) >= 2:
+            pos = (a * 16 + b) % (len(self.live) - 1)
+            r = self.live.pop(pos)
+            self.freed_addrs.add(r.addr)
+            del self.addrs[r.addr]
+            del r
+        for r in self.live[-3:]:
+            self.call(r, 2, b)
+            self.call(r, 1, a)
+        self.flags.add('drop-while-every-closure-block-is-in-use')
+        return 'pagefill-drop-call'
 
     def op_selfdrop(self, i, _how, k):
         """a one-shot callback: invoked through its bare address (so that the call itself holds no
